@@ -264,6 +264,6 @@ impl Check for C13 {
         }
     }
     fn required_classes(&self, _tier: Tier) -> Vec<String> {
-        ["mustfail|dangling", "mustfail|link", "mustfail|directory", "chain40", "chain41+", "dirlinks=1", "leaves-source", "top_link=true"].iter().map(|s| s.to_string()).collect()
+        ["mustfail|dangling", "mustfail|link", "mustfail|directory", "chain40", "dirlinks=1", "leaves-source", "top_link=true"].iter().map(|s| s.to_string()).collect()
     }
 }
